@@ -408,3 +408,20 @@ def _cancel(ctx, case):
         ctx.violation("no-recovery/cancel", f"exchange after a cancellation at +{case['at']:.2f}s (outcome {first}) failed: {second}", case)
     else:
         ctx.count(key, kind="recovery-ok", sample={"version": version, "cancel_at": round(case["at"], 2), "cancelled_outcome": first})
+
+
+def finish(ctx):
+    """Thorough tier, first shard only: simulation fidelity against real loopback sockets (informational; a divergence is
+    reported as inconclusive, never as a violation)."""
+    if ctx.tier != "thorough" or ctx.shard != 0 or ctx.replaying:
+        return
+    try:
+        from ..selftest import loopback
+        res = loopback.compare()
+    except Exception as e:  # noqa: BLE001
+        ctx.note("loopback_fidelity", f"skipped: {type(e).__name__}: {e}")
+        return
+    ctx.note("loopback_fidelity", [{k: r[k] for k in ("scenario", "same", "error", "wall_s")} for r in res])
+    for r in res:
+        if not r["same"] and not r["error"]:
+            ctx.inconclusive_because(f"simulation diverges from real loopback sockets in scenario {r['scenario']}")
